@@ -120,8 +120,8 @@ class Lib:
                 ints.append(self._arg(a, keep))
         f = self.fn(name)
         if dbls or ret == "f64":
-            if len(ints) > 6 and dbls:
-                raise ValueError("mixed call with >6 integer arguments")
+            if len(ints) > 12 and dbls:
+                raise ValueError("mixed call with >12 integer arguments")
             if len(dbls) > 8:
                 raise ValueError("too many double arguments")
         if not dbls:
@@ -135,7 +135,7 @@ class Lib:
                 r = C.c_uint64()
                 st = self.lib.vf_call(f, arr, C.byref(r))
         else:
-            arr = (C.c_uint64 * 6)(*ints)
+            arr = (C.c_uint64 * 12)(*ints)
             darr = (C.c_double * 8)(*dbls)
             ri, rd = C.c_uint64(), C.c_double()
             st = self.lib.vf_call_mixed(f, arr, darr, 1 if ret == "f64" else 0, C.byref(ri), C.byref(rd))
